@@ -1181,7 +1181,7 @@ func init() {
 		ExpectProbes: []string{"c18_block_checked", "c18_absence_punished", "c18_evidence_punished", "c18_jailed_switch_on_rejected"},
 	})
 	register(&PropSpec{ID: "C22", Level: "exploration",
-		Rule: "long sequences of create coin/token, recreate, owner change, mint, burn and pool creation by owners and non-owners with colliding tickers; reference registry over consecutive exports: active tickers unique, new ids never seen before and consecutive, recreated coins archived under a new version with a fresh successor, pool-token volume changes only with liquidity transactions, volume <= max supply; distinct non-trivial case = distinct (tx kind, result code) of registry transactions",
+		Rule: "long sequences of create coin/token, recreate, owner change, mint, burn and pool creation by owners and non-owners with colliding tickers (also look-alikes: the letters of a ticker in use or of the base coin behind a leading zero byte); reference registry over consecutive exports: active tickers unique, new ids never seen before and consecutive, recreated coins archived under a new version with a fresh successor, pool-token volume changes only with liquidity transactions, volume <= max supply; distinct non-trivial case = distinct (tx kind, result code) of registry transactions",
 		Make: func(r *rand.Rand, seed int64, chain int, tier string) *Scenario {
 			p := GeneralProfile()
 			for _, k := range []string{"createcoin", "createtoken", "recreatecoin", "recreatetoken", "editcoinowner", "mint", "burn", "createpool", "addliq", "remliq"} {
